@@ -22,7 +22,7 @@ func genUpstream(t *rapid.T, focus string) []vh.UpstreamAttempt {
 	for i := 0; i < n; i++ {
 		// "silent" (accepts, never says anything) only differs from "neverack" when the outputs use a shared key: the
 		// client then waits for the handshake; without a key it is one more connection that never acknowledges
-		k := rapid.SampledFrom([]string{"healthy", "refuse", "reset", "reset", "neverack", "late", "wrongid", "silent"}).Draw(t, "kind")
+		k := rapid.SampledFrom([]string{"healthy", "refuse", "reset", "reset", "neverack", "late", "wrongid", "silent", "rejectlogin"}).Draw(t, "kind")
 		a := vh.UpstreamAttempt{Kind: k}
 		switch k {
 		case "reset":
@@ -326,10 +326,13 @@ func classify(sc Scenario, o *Outcome) (bool, []string) {
 		add(m.Sum("slogagent_process_output_forward_attempts_total") > m.Sum("slogagent_process_output_forwarded_chunks_total"), "a-send-did-not-complete(blocked mid-write, measured)")
 		add(m.Sum("slogagent_process_output_forward_attempts_total") > 0 && m.Sum("slogagent_process_output_forwarded_chunks_total") == 0, "first-send-blocked-with-nothing-awaiting-ack(measured)")
 	}
-	silent := false
+	silent, rejected := false, false
 	for _, g := range sc.Gens {
 		for _, ups := range g.Upstream {
 			for _, a := range ups {
+				if a.Kind == "rejectlogin" {
+					rejected = true
+				}
 				if a.Kind == "silent" {
 					silent = true
 				}
@@ -339,6 +342,7 @@ func classify(sc Scenario, o *Outcome) (bool, []string) {
 	add(sc.Secret, "shared-key-handshake")
 	add(sc.RotateMs > 0, "periodic-reconnection(short maxDuration)")
 	add(sc.Secret && silent, "upstream-accepts-but-never-answers-the-handshake")
+	add(sc.Secret && rejected, "upstream-refuses-the-login")
 	add(sc.TinyQuota, "tiny-quota")
 	add(len(sc.Modes) > 1, "two-outputs")
 	add(sc.KeyHost, "two-key-fields")
